@@ -227,6 +227,15 @@ def run_case(case, res):
                             break
                     chk("get_common_ancestor", x.get_common_ancestor(y), common, x)
                     res.count("pairs")
+            # a twin of this tree (same shape, same data, same node ids where they were given): nodes of another tree are no
+            # relatives of this tree's nodes, whatever ids they carry
+            if order and not case.get("prelude"):
+                t2, nodes2 = make_tree(case, rng_for(case.get("seed", 0), "c10", case["f"], case["lab"]))
+                for x, y in list(zip(order, nodes2))[:4] + [(order[-1], nodes2[0])]:
+                    chk("get_common_ancestor(<node of a twin tree>)", attempt(lambda: x.get_common_ancestor(y)), None, x)
+                    chk("is_ancestor_of(<node of a twin tree>)", attempt(lambda: x.is_ancestor_of(y)), False, x)
+                    chk("is_descendant_of(<node of a twin tree>)", attempt(lambda: x.is_descendant_of(y)), False, x)
+                    res.count("twin_tree_pairs")
             lv = [x for x in order if not kids[id(x)]]
             if len(lv) >= 2 and not typed:
                 got0 = lv[0].children
